@@ -78,7 +78,10 @@ impl Area for Mrg {
             let at = rng.below(srcs.len() as u64 + 1) as usize;
             srcs.insert(at, format!("-*{}", 20_000 + rng.below(30_000)));
         }
-        format!("{} {} | {}", mode, rng.below(2000), srcs.join(";"))
+        // any start index: small ones, and the largest ones that still number all messages within u32
+        let total: u64 = srcs.iter().filter(|x| !x.starts_with('-')).map(|x| x.split(',').count() as u64).sum();
+        let i0 = if rng.chance(8) { (1u64 << 32) - total - rng.below(3).min(if total == 0 { 1 } else { 3 }) } else { rng.below(2000) };
+        format!("{} {} | {}", mode, i0.min(u32::MAX as u64), srcs.join(";"))
     }
     fn run(&self, case: &str) -> String {
         run(case)
